@@ -32,3 +32,28 @@ pub fn main(args: Args) {
     println!("wrote {out}.sv and {out}.sv.map");
     std::process::exit(0);
 }
+
+/// Hidden helper: print parse errors of synthetic modules (generator debugging).
+pub fn synth(args: Args) {
+    let n: u64 = args.get("n").and_then(|x| x.parse().ok()).unwrap_or(40);
+    let mut bad = std::collections::BTreeMap::<String, (u64, String)>::new();
+    for i in 0..n {
+        let mut rng = vcommon::Rng::for_case(args.seed, "SYN", i);
+        let t = crate::alignsyn::module(&mut rng);
+        if let Err(e) = Parser::parse(&t, &"syn.veryl") {
+            let off = match &e {
+                veryl_parser::ParserError::SyntaxError(b) => b.error_location.offset(),
+                _ => 0,
+            };
+            let (l, _) = vcommon::lex::line_col(&t, off);
+            let line = t.lines().nth(l as usize - 1).unwrap_or("").trim().to_string();
+            let key: String = line.split_whitespace().next().unwrap_or("").to_string();
+            let e = bad.entry(key).or_insert((0, format!("{}: {}", e.to_string().lines().next().unwrap_or(""), line)));
+            e.0 += 1;
+        }
+    }
+    for (k, (c, ex)) in bad {
+        println!("{c:4} {k:12} {}", ex.chars().take(150).collect::<String>());
+    }
+    std::process::exit(0);
+}
